@@ -4,6 +4,14 @@
 import glob, json, os, re, sys
 ROOT = os.path.dirname(os.path.dirname(os.path.abspath(__file__)))
 rows = {}
+# base: the rows of the table as committed (results of earlier runs whose row
+# files are gone, e.g. after a restore of the sandbox); row files override them
+_res = os.path.join(ROOT, "seeded", "RESULTS.md")
+if os.path.isfile(_res):
+    for line in open(_res):
+        c = [x.strip() for x in line.strip().strip("|").split("|")]
+        if len(c) >= 4 and re.match(r"C\d\d-", c[0]) and "(not run yet)" not in c[3]:
+            rows[c[0]] = re.sub(r" — see note in meta.json$", "", c[3])
 files = sorted(glob.glob(os.path.join(ROOT, ".work/seeded-run/rows*")), key=os.path.getmtime)
 for f in files:
     for line in open(f):
